@@ -851,6 +851,32 @@ def recursion_test_exact(H):
     return ok
 
 
+# ------------------------------------------------------------------ Schemas registries are only extended through copies (evolve), never in place
+def registries_persistent(H):
+    """True iff no statement inserts into classes_by_name / classes_by_reference / models_to_process of an existing object in place
+    (subscript assignment, append/extend/insert/update/setdefault, augmented assignment).  Deletions (pop / del: removal propagation after the
+    loops) are not insertions.  A failed parse attempt can then leave no registration behind: the caller still holds the old object."""
+    regs = {"classes_by_name", "classes_by_reference", "models_to_process"}
+    def is_reg(e):
+        return isinstance(e, ast.Attribute) and e.attr in regs
+    for rel, mod in H.files.items():
+        for n in ast.walk(mod):
+            if isinstance(n, (ast.Assign, ast.AugAssign, ast.AnnAssign)):
+                tgts = n.targets if isinstance(n, ast.Assign) else [n.target]
+                for t in tgts:
+                    if isinstance(t, ast.Subscript) and is_reg(t.value):
+                        return False
+                    if isinstance(n, ast.AugAssign) and is_reg(t):
+                        return False
+                    if isinstance(t, ast.Attribute) and t.attr in regs and not (isinstance(t.value, ast.Name) and t.value.id == "self"):
+                        return False   # schemas.classes_by_name = ... on an existing object
+            if isinstance(n, ast.Call) and isinstance(n.func, ast.Attribute) and n.func.attr in ("append", "extend", "insert", "update", "setdefault", "__setitem__") and is_reg(n.func.value):
+                return False
+            if isinstance(n, ast.Call) and isinstance(n.func, ast.Attribute) and n.func.attr == "__setattr__" and any(isinstance(a, ast.Constant) and a.value in regs for a in n.args):
+                return False
+    return True
+
+
 # ------------------------------------------------------------------ emit
 def coq_str(s):
     return "[" + "; ".join(str(ord(c)) for c in s) + "]%N" if s else "(@nil N)"
@@ -887,7 +913,7 @@ def collect():
     return out
 
 
-def generate(sites, regs=(), rec_exact=False):
+def generate(sites, regs=(), rec_exact=False, persistent=False):
     eff = {"none": "ENone", "diag": "EDiag", "output": "EOutput"}
     lines = ["(* GENERATED by harness/translate/gen_loops.py from the templates and the Python sources under openapi_python_client/. Do not edit. *)\n",
              "From Coq Require Import NArith List Bool.\nImport ListNotations.\nRequire Import OPC.Order OPC.Registry.\n",
@@ -906,6 +932,8 @@ def generate(sites, regs=(), rec_exact=False):
     lines.append("\n].\n")
     lines.append("(* parser/properties/__init__.py _process_models: the recursive-allOf test compares the unresolved $ref with \"/\" ++ class name (whole last segment) *)\n")
     lines.append("Definition gen_recursion_test_exact : bool := %s.\n" % ("true" if rec_exact else "false"))
+    lines.append("(* no in-place insertion into Schemas.classes_by_name / classes_by_reference / models_to_process anywhere in the package (only evolve'd copies) *)\n")
+    lines.append("Definition gen_registries_persistent : bool := %s.\n" % ("true" if persistent else "false"))
     return "".join(lines)
 
 
@@ -936,5 +964,5 @@ if __name__ == "__main__":
     if not any(s["kind"] == "jinja" for s in sites) or not any(s["kind"] == "py" for s in sites):
         print("gen_loops: implausible result (no template sites or no python sites)")
         sys.exit(1)
-    changed = write_if_changed(os.path.join(HERE, "..", "..", "coq", "gen", "GenLoops.v"), generate(sites, regs, recursion_test_exact(_H)))
+    changed = write_if_changed(os.path.join(HERE, "..", "..", "coq", "gen", "GenLoops.v"), generate(sites, regs, recursion_test_exact(_H), registries_persistent(_H)))
     print("GenLoops.v", "rewritten" if changed else "unchanged", "(%d sites, %d unsorted, %d unknown; %d registration sites: %s)" % (len(sites), sum(not s["sorted"] for s in sites), sum(not s["known"] for s in sites), len(regs), ",".join(r["kind"] for r in regs)))
